@@ -28,6 +28,8 @@ contract(
         ('every_name_reported', 'all(k in result for k in _func_traces)'),
         ('exact_statistic',
          'all(result[k] == window_stat(_func_traces[k], average, max_history) for k in _func_traces)'),
+        # reading a statistic is a query: the recorded samples are left as they were
+        ('recorded_samples_untouched', 'same_dict(_func_traces, old(_func_traces))'),
     ],
     loops={'iter:_func_traces.items()': dict(index='i', invariants=[
         ('size', 'len(out) == i'),
